@@ -122,7 +122,9 @@ def bare_pairs(rep, tier):
 
 def main(tier):
     n = 600 if tier == "quick" else 10000
-    return runfam.run(PID, tier, groups=("core", "control", "print"), judged=JUDGED, ncases=n, seed_salt=1500,
+    # the mode settings hold whichever method drives the run: collect() and fast_forward() (which returns nothing, and with
+    # run-mode: no-run reads nothing either)
+    return runfam.run(PID, tier, groups=("core", "control", "print"), judged=JUDGED, ncases=n, seed_salt=1500, methods=("collect", "fast_forward"),
                       gen_opts={"modes": True}, pre=lambda rep: (meta_part(rep, tier), bare_pairs(rep, tier)))
 
 
